@@ -607,8 +607,13 @@ class Engine:
                 tgt = ("mem", ("this",), e["init_field"])
                 facts = self._kill(facts, tgt)
                 it = fn.term(nid)
-                if it[0] != "?" and not mentions(it, tgt) and it[0] in ("var", "const", "mem"):
+                if it[0] != "?" and not mentions(it, tgt) and it[0] in ("var", "const", "mem", "op"):
                     facts = facts | {norm_cmp("==", tgt, it)}
+                elif it[0] == "ctor" and (it[1] or "").startswith("std::vector") and len(it[2]) >= 1:
+                    n0 = fn.n(fn.strip(nid, casts=False))
+                    ps = n0.get("params", [])
+                    if ps and "iw" in ps[0] and not n0.get("list_init"):
+                        facts = facts | {norm_cmp("==", ("size", tgt), it[2][0])}
             return facts
         nd = fn.n(e)
         k = nd["k"]
